@@ -677,175 +677,248 @@ fn random_call(rng: &mut Rng, w: &CW, p: &Policy) -> Value {
     let sectors = ms["sectors"].as_array().unwrap();
     let pres = ms["pre"].as_array().unwrap();
     let used: Vec<u64> = ms["alloc"].as_array().unwrap().iter().map(|x| x.as_u64().unwrap()).collect();
-    let fresh = (1..60u64).find(|x| !used.contains(x)).unwrap_or(61);
+    let fresh = (1..200u64).find(|x| !used.contains(x)).unwrap_or(201);
     let wdw = p.wpost_challenge_window;
     let period = p.wpost_proving_period;
+    let nd = p.wpost_period_deadlines as i64;
     let off = ms["off"].as_i64().unwrap();
     let cur = ((epoch - off).rem_euclid(period)) / wdw;
-    let live: Vec<&Value> = sectors.iter().filter(|s| !s["term"].as_bool().unwrap() && s["exp"].as_i64().unwrap() >= epoch).collect();
+    let drop_period = p.end_of_life_claim_drop_period;
+    let g = |v: &Value, k: &str| v[k].as_i64().unwrap();
+    // next opening of deadline d, and whether d may be changed now
+    let open_of = |d: i64| -> i64 {
+        let ps = epoch - (epoch - off).rem_euclid(period);
+        let o = ps + d * wdw;
+        if epoch >= o + wdw { o + period } else { o }
+    };
+    let mutable = |d: i64| -> bool { epoch < open_of(d) - wdw };
+    let live: Vec<&Value> = sectors.iter().filter(|s| !s["term"].as_bool().unwrap() && g(s, "exp") >= epoch).collect();
+    let active: Vec<&Value> = live.iter().filter(|s| !s["unproven"].as_bool().unwrap()).cloned().collect();
+    let cc: Vec<&Value> = active.iter().filter(|s| g(s, "vw") == 0 && g(s, "dw") == 0 && mutable(g(s, "d"))).cloned().collect();
+    let verified: Vec<&Value> = active.iter().filter(|s| g(s, "vw") > 0).cloned().collect();
     let any_id = |rng: &mut Rng| rng.range(1, next.max(1));
-    let my_allocs: Vec<&Value> = allocs.iter().filter(|a| a["a"]["provider"] == json!("m1")).collect();
-    // pieces for a new sector / update: mostly open allocations for m1 that fit
-    let pick_pieces = |rng: &mut Rng, expiry: i64| -> Vec<Value> {
+    let my_allocs: Vec<&Value> = allocs.iter().filter(|a| a["a"]["provider"] == json!("m1") && g(&a["a"], "exp") >= epoch).collect();
+    let fits = |a: &Value, remaining: i64| -> bool { remaining >= g(&a["a"], "tmin") && remaining <= g(&a["a"], "tmax") };
+    let noise = rng.chance(12);
+    // pieces for a sector that will expire at `expiry`, claimed now (or `delay` epochs from now)
+    let pick_pieces = |rng: &mut Rng, expiry: i64, delay: i64| -> Vec<Value> {
+        let remaining = expiry - epoch - delay;
+        let mut cands: Vec<&Value> = my_allocs.iter().filter(|a| fits(a, remaining)).cloned().collect();
+        if cands.is_empty() || rng.chance(6) {
+            cands = allocs.iter().collect();
+        }
         let mut out: Vec<Value> = vec![];
         let mut room = 2048;
-        let k = *rng.pick(&[1, 1, 2, 2, 3]);
+        let k = *rng.pick(&[1, 2, 2, 2, 3, 3]);
         for _ in 0..k {
-            if !my_allocs.is_empty() && rng.chance(88) {
-                let fits: Vec<&&Value> = my_allocs.iter().filter(|a| {
-                    let t = expiry - epoch;
-                    rng_ok(a, t) && a["a"]["size"].as_i64().unwrap() <= room && !out.iter().any(|p: &Value| p["id"] == a["id"])
-                }).collect();
-                let a = if !fits.is_empty() && rng.chance(90) { **rng.pick(&fits) } else { *rng.pick(&my_allocs) };
-                let size = a["a"]["size"].as_i64().unwrap();
-                if size > room {
-                    continue;
-                }
-                room -= size;
-                out.push(json!({"id": a["id"], "client": a["a"]["client"],
-                    "data": if rng.chance(95) { a["a"]["data"].clone() } else { json!("dC") }, "size": size}));
-            } else if rng.chance(50) && room >= 256 {
-                room -= 256;
-                out.push(json!({"id": 0, "client": "c1", "data": "dB", "size": 256}));
-            } else if room >= 512 {
-                room -= 512;
-                out.push(json!({"id": any_id(rng), "client": "c1", "data": "dA", "size": 512}));
+            if cands.is_empty() {
+                break;
             }
+            let a = *rng.pick(&cands);
+            let size = g(&a["a"], "size");
+            let dup = out.iter().any(|p: &Value| p["id"] == a["id"]);
+            if size > room || (dup && !rng.chance(5)) {
+                continue;
+            }
+            room -= size;
+            out.push(json!({"id": a["id"], "client": a["a"]["client"],
+                "data": if rng.chance(97) { a["a"]["data"].clone() } else { json!("dC") },
+                "size": if rng.chance(97) { size } else { 256 }}));
+        }
+        if rng.chance(10) && room >= 256 {
+            out.push(json!({"id": 0, "client": "c1", "data": "dB", "size": 256}));
+        }
+        if rng.chance(4) {
+            out.push(json!({"id": any_id(rng), "client": "c1", "data": "dA", "size": 512}));
         }
         out
     };
-    let k = rng.below(100);
-    if k < 16 {
-        // allocations aimed at an existing CC sector / pre-commit, or at a sector about to be made
-        let na = *rng.pick(&[1, 1, 2, 2, 3]);
-        let cc: Vec<&&Value> = live.iter().filter(|s| s["vw"].as_i64().unwrap() == 0 && s["dw"].as_i64().unwrap() == 0).collect();
-        let target = if !cc.is_empty() && rng.chance(70) { rng.pick(&cc)["exp"].as_i64().unwrap() - epoch }
-                     else if rng.chance(50) { p.min_sector_expiration + 10 } else { 2960 };
-        let mut al = vec![];
-        for _ in 0..na {
-            let tmin = (*rng.pick(&[24, 24, 30, 48, target - 10, 23])).clamp(23, 4000);
-            let tmax = (target + *rng.pick(&[0, 0, 2, 6, 30, 60, -3])).max(tmin + *rng.pick(&[0, 0, 0, -1]));
-            al.push(json!({"provider": *rng.pick(&["m1", "m1", "m1", "m1", "m2"]), "data": *rng.pick(&["dA", "dA", "dB"]),
-                "size": *rng.pick(&[512, 512, 512, 1024, 256, 128]), "tmin": tmin, "tmax": tmax.min(4001),
-                "exp": epoch + *rng.pick(&[5, 10, 30, 60, 61, 1])}));
+    // ---- what is worth doing now, with weights
+    let mut menu: Vec<(&str, u64)> = vec![("tick", 22), ("transfer", if my_allocs.len() < 4 { 6 } else { 1 }), ("commit", 4), ("misc", 6)];
+    if live.len() < 2 { menu.push(("commit", 14)); }
+    if !cc.is_empty() {
+        let s = cc[0];
+        if my_allocs.iter().any(|a| fits(a, g(s, "exp") - epoch)) { menu.push(("update", 40)); } else { menu.push(("transfer", 30)); }
+    }
+    if live.iter().any(|s| g(s, "vw") == 0 && g(s, "dw") == 0) && my_allocs.is_empty() { menu.push(("transfer", 10)); }
+    if !verified.is_empty() { menu.push(("extend", 34)); menu.push(("terms", 8)); }
+    if !active.is_empty() { menu.push(("extend", 4)); menu.push(("terminate", 2)); }
+    if !claims.is_empty() { menu.push(("terms", 3)); menu.push(("rmclaims", 4)); menu.push(("extspend", 2)); }
+    if !allocs.is_empty() { menu.push(("rmallocs", 3)); }
+    if pres.is_empty() && live.len() < 3 { menu.push(("precommit", 4)); }
+    if pres.iter().any(|pc| epoch > g(pc, "at") + 1 && epoch < g(pc, "at") + 50) { menu.push(("prove", 30)); }
+    else if !pres.is_empty() { menu.push(("prove", 1)); menu.push(("tick", 20)); }
+    let total: u64 = menu.iter().map(|m| m.1).sum();
+    let mut r = rng.below(total);
+    let mut what = "tick";
+    for (k, wgt) in &menu {
+        if r < *wgt { what = k; break; }
+        r -= wgt;
+    }
+    match what {
+        "transfer" => {
+            // allocations aimed at a data-less sector, a pre-commit to be made, or nothing in particular
+            let targets: Vec<i64> = live.iter().filter(|s| g(s, "vw") == 0 && g(s, "dw") == 0).map(|s| g(s, "exp") - epoch).collect();
+            let target = if !targets.is_empty() && rng.chance(85) { *rng.pick(&targets) - *rng.pick(&[0, 0, 6, 12, 18]) }
+                         else if rng.chance(60) { p.min_sector_expiration - 18 } else { 2953 + *rng.pick(&[0, 10, 30]) };
+            let na = *rng.pick(&[1, 2, 2, 2, 3]);
+            let size = *rng.pick(&[512, 512, 512, 256, 1024]);
+            let mut al = vec![];
+            for _ in 0..na {
+                let mut tmin = *rng.pick(&[24, 24, 30, (target - 12).max(24)]);
+                let mut tmax = (target + *rng.pick(&[0, 0, 6, 12, 24, 48, 200])).max(tmin);
+                let mut sz = if rng.chance(80) { size } else { *rng.pick(&[256, 512, 1024]) };
+                let mut exp = epoch + *rng.pick(&[20, 30, 60, 60]);
+                if noise {
+                    match rng.below(6) { 0 => tmin = 23, 1 => tmax = 4001, 2 => sz = 128, 3 => exp = epoch + 61, 4 => exp = epoch - 1, _ => tmax = tmin - 1 }
+                }
+                al.push(json!({"provider": if rng.chance(94) { "m1" } else { "m2" }, "data": *rng.pick(&["dA", "dA", "dB"]),
+                    "size": sz, "tmin": tmin, "tmax": tmax, "exp": exp}));
+            }
+            let want: i64 = al.iter().map(|a| g(a, "size")).sum();
+            let amt = if rng.chance(95) { want } else { want + 256 };
+            json!({"a": "Transfer", "c": *rng.pick(&["c1", "c1", "c1", "c2"]), "to": "vr", "amt": amt, "allocs": al, "exts": [], "ids": []})
         }
-        let want: i64 = al.iter().map(|a| a["size"].as_i64().unwrap()).sum();
-        let amt = if rng.chance(92) { want } else { want + 256 };
-        return json!({"a": "Transfer", "c": *rng.pick(&["c1", "c1", "c2"]), "to": "vr", "amt": amt, "allocs": al, "exts": [], "ids": []});
-    }
-    if k < 20 && !claims.is_empty() {
-        // extension of a claim's term by spending DataCap
-        let c = rng.pick(claims);
-        let tmax = c["c"]["tmax"].as_i64().unwrap() + *rng.pick(&[1, 24, 48, 100, 0]);
-        return json!({"a": "Transfer", "c": c["c"]["client"], "to": "vr", "amt": c["c"]["size"], "allocs": [],
-                      "exts": [{"provider": c["c"]["provider"], "claim": c["id"], "tmax": tmax}], "ids": []});
-    }
-    if k < 28 {
-        let d = if rng.chance(85) { (cur + 2 + rng.range(0, 1)) % 4 } else { rng.range(0, 3) };
-        return json!({"a": "CommitNI", "m": "m1", "n": if rng.chance(92) { fresh } else { rng.range(1, 4) as u64 },
-                      "exp": epoch + p.min_sector_expiration + *rng.pick(&[0, 3, 10, 24, 40, -1]), "d": d});
-    }
-    if k < 40 {
-        // verified data into a CC sector
-        let cc: Vec<&&Value> = live.iter().filter(|s| s["vw"].as_i64().unwrap() == 0 && s["dw"].as_i64().unwrap() == 0).collect();
-        if !cc.is_empty() {
-            let s = **rng.pick(&cc);
-            let ps = pick_pieces(rng, s["exp"].as_i64().unwrap());
-            if !ps.is_empty() {
-                return json!({"a": "ReplicaUpdate", "m": "m1", "ups": [{"n": s["n"], "pieces": ps}], "requireAll": rng.chance(50), "res": []});
+        "extspend" => {
+            let c = rng.pick(claims);
+            let tmax = g(&c["c"], "tmax") + *rng.pick(&[1, 24, 48, 100, 0]);
+            json!({"a": "Transfer", "c": c["c"]["client"], "to": "vr", "amt": c["c"]["size"], "allocs": [],
+                   "exts": [{"provider": c["c"]["provider"], "claim": c["id"], "tmax": tmax}], "ids": []})
+        }
+        "commit" => {
+            let d = if !noise { (cur + 2 + rng.range(0, 1)) % nd } else { rng.range(0, nd - 1) };
+            json!({"a": "CommitNI", "m": "m1", "n": if !noise { fresh } else { rng.range(1, 4) as u64 },
+                   "exp": epoch + p.min_sector_expiration + *rng.pick(&[0, 0, 6, 24, 40]) - if noise { 1 } else { 0 }, "d": d})
+        }
+        "update" => {
+            let pool: Vec<&Value> = if noise && !live.is_empty() { live.clone() } else { cc.clone() };
+            let s = *rng.pick(&pool);
+            let ps = pick_pieces(rng, g(s, "exp"), 0);
+            let mut ups = vec![json!({"n": s["n"], "pieces": ps})];
+            if cc.len() >= 2 && rng.chance(25) {
+                let s2 = cc.iter().find(|x| x["n"] != s["n"]).unwrap();
+                ups.push(json!({"n": s2["n"], "pieces": pick_pieces(rng, g(s2, "exp"), 0)}));
+            }
+            json!({"a": "ReplicaUpdate", "m": "m1", "ups": ups, "requireAll": rng.chance(50), "res": []})
+        }
+        "precommit" => {
+            let exp = epoch + 2881 + p.min_sector_expiration + *rng.pick(&[0, 5, 20, 60]) - if noise { 1 } else { 0 };
+            if !noise && !my_allocs.iter().any(|a| fits(a, exp - epoch - 2)) {
+                // first the allocations such a sector can claim
+                let life = exp - epoch - 2;
+                let al: Vec<Value> = (0..*rng.pick(&[1, 2, 2, 3])).map(|_| json!({"provider": "m1", "data": "dA", "size": *rng.pick(&[512, 512, 256]),
+                    "tmin": *rng.pick(&[24, 1000, life - 20]), "tmax": life + *rng.pick(&[0, 2, 10, 30, 100]), "exp": epoch + 60})).collect();
+                let want: i64 = al.iter().map(|a| g(a, "size")).sum();
+                return json!({"a": "Transfer", "c": "c1", "to": "vr", "amt": want, "allocs": al, "exts": [], "ids": []});
+            }
+            let ps = if rng.chance(90) { pick_pieces(rng, exp, 2) } else { vec![] };
+            let mut secs = vec![json!({"n": fresh, "exp": exp, "pieces": ps})];
+            if rng.chance(25) {
+                secs.push(json!({"n": fresh + 1, "exp": exp, "pieces": pick_pieces(rng, exp, 2)}));
+            }
+            json!({"a": "PreCommit", "m": "m1", "secs": secs})
+        }
+        // the pieces are not recorded on chain: the schedule runner remembers them (see `main`)
+        "prove" => json!({"a": "ProveCommitAll", "requireAll": rng.chance(50)}),
+        "extend" => {
+            let pool: Vec<&Value> = if noise { live.clone() } else if !verified.is_empty() && rng.chance(85) { verified.clone() } else { active.clone() };
+            let s = *rng.pick(&pool);
+            let n = s["n"].as_u64().unwrap();
+            let exp = g(s, "exp");
+            let mine: Vec<&Value> = claims.iter().filter(|c| c["c"]["sector"] == json!(n) && c["c"]["provider"] == json!("m1")).collect();
+            let ends: Vec<i64> = mine.iter().map(|c| g(&c["c"], "tstart") + g(&c["c"], "tmax")).collect();
+            let lo = ends.iter().cloned().min().unwrap_or(exp + 48);
+            let hi = ends.iter().cloned().max().unwrap_or(exp + 48);
+            let new_exp = *rng.pick(&[lo, lo, lo + 1, hi, hi + 1, exp + 24, exp + 1, exp, lo + 30, exp - 1]);
+            let in_window = exp - epoch <= drop_period;
+            let mut maintain: Vec<u64> = vec![];
+            let mut dropl: Vec<u64> = vec![];
+            for c in &mine {
+                let id = c["id"].as_u64().unwrap();
+                let cmax = g(&c["c"], "tstart") + g(&c["c"], "tmax");
+                let r = rng.below(100);
+                if (new_exp > cmax && r < 70 && (in_window || r < 15)) || r < 5 { dropl.push(id) } else if r < 97 { maintain.push(id) }
+            }
+            match rng.below(24) {
+                0 if !maintain.is_empty() => { let x = maintain[0]; maintain.push(x); }          // repeated id
+                1 if maintain.len() >= 2 => { maintain[1] = maintain[0]; }                        // repeated instead of the other
+                2 => maintain.push(any_id(rng) as u64),                                           // unknown / foreign
+                3 if !dropl.is_empty() => { let x = dropl[0]; maintain.push(x); }                 // both kept and dropped
+                4 if !maintain.is_empty() && !dropl.is_empty() => { dropl[0] = maintain[0]; }
+                5 if !dropl.is_empty() => { let x = dropl[0]; dropl.push(x); }
+                _ => {}
+            }
+            let mut decls = vec![json!({"n": n, "exp": new_exp, "maintain": maintain, "drop": dropl})];
+            match rng.below(14) {
+                // the same sector once more in the message, without claims and later; with a claim; another sector
+                0 => decls.push(json!({"n": n, "exp": new_exp + *rng.pick(&[24, 48, 1]), "maintain": [], "drop": []})),
+                1 if !mine.is_empty() => decls.push(json!({"n": n, "exp": new_exp + 24, "maintain": [rng.pick(&mine)["id"]], "drop": []})),
+                2 if active.len() >= 2 => {
+                    let s2 = *rng.pick(&active);
+                    if s2["n"] != s["n"] {
+                        let c2: Vec<u64> = claims.iter().filter(|c| c["c"]["sector"] == s2["n"]).map(|c| c["id"].as_u64().unwrap()).collect();
+                        decls.push(json!({"n": s2["n"], "exp": g(s2, "exp") + *rng.pick(&[6, 24]), "maintain": c2, "drop": []}));
+                    }
+                }
+                3 => decls.insert(0, json!({"n": n, "exp": exp, "maintain": [], "drop": []})),
+                _ => {}
+            }
+            json!({"a": "Extend", "m": "m1", "decls": decls})
+        }
+        "terms" => {
+            let (id, tm) = if !claims.is_empty() { let c = rng.pick(claims); (g(c, "id"), g(&c["c"], "tmax")) } else { (any_id(rng), 30) };
+            json!({"a": "ExtendClaimTerms", "c": *rng.pick(&["c1", "c1", "c1", "c1", "c2"]),
+                   "terms": [{"provider": "m1", "claim": id, "tmax": tm + *rng.pick(&[6, 12, 24, 24, 48, 0, -1, 4000])}], "res": []})
+        }
+        "rmclaims" => {
+            let ids: Vec<i64> = if rng.chance(40) { vec![] } else { vec![g(rng.pick(claims), "id")] };
+            json!({"a": "RemoveExpiredClaims", "c": "x", "p": *rng.pick(&["m1", "m1", "m1", "m2"]), "ids": ids, "removed": []})
+        }
+        "rmallocs" => {
+            let ids: Vec<i64> = if rng.chance(40) { vec![] } else { vec![g(rng.pick(allocs), "id")] };
+            json!({"a": "RemoveExpiredAllocs", "c": "x", "cl": *rng.pick(&["c1", "c1", "c2"]), "ids": ids, "removed": []})
+        }
+        "terminate" => json!({"a": "Terminate", "m": "m1", "n": rng.pick(&live)["n"]}),
+        "misc" => {
+            // calls aimed at nothing in particular
+            match rng.below(4) {
+                0 => json!({"a": "RemoveExpiredClaims", "c": "x", "p": "m1", "ids": [any_id(rng)], "removed": []}),
+                1 => json!({"a": "RemoveExpiredAllocs", "c": "x", "cl": "c1", "ids": [any_id(rng)], "removed": []}),
+                2 => json!({"a": "Extend", "m": "m1", "decls": [{"n": rng.range(1, 4), "exp": epoch + 100, "maintain": [any_id(rng)], "drop": []}]}),
+                _ => json!({"a": "Terminate", "m": "m1", "n": rng.range(1, 4)}),
             }
         }
-    }
-    if k < 44 {
-        let exp = epoch + 2881 + p.min_sector_expiration + *rng.pick(&[0, 5, 20, 60, -1]);
-        let ps = if rng.chance(85) { pick_pieces(rng, exp) } else { vec![] };
-        return json!({"a": "PreCommit", "m": "m1", "secs": [{"n": fresh, "exp": exp, "pieces": ps}]});
-    }
-    if k < 52 && !pres.is_empty() {
-        // prove-commit what is pre-committed; the pieces are not recorded on chain, the schedule remembers them
-        return json!({"a": "ProveCommitAll", "requireAll": rng.chance(50)});
-    }
-    if k < 72 && !live.is_empty() {
-        let s = *rng.pick(&live);
-        let n = s["n"].as_u64().unwrap();
-        let exp = s["exp"].as_i64().unwrap();
-        let mine: Vec<&Value> = claims.iter().filter(|c| c["c"]["sector"] == json!(n) && c["c"]["provider"] == json!("m1")).collect();
-        let limit = mine.iter().map(|c| c["c"]["tstart"].as_i64().unwrap() + c["c"]["tmax"].as_i64().unwrap()).min().unwrap_or(exp + 48);
-        let new_exp = *rng.pick(&[limit, limit, limit + 1, exp + 24, exp + 1, exp, limit + 30, exp - 1]);
-        let mut maintain: Vec<u64> = vec![];
-        let mut dropl: Vec<u64> = vec![];
-        for c in &mine {
-            let id = c["id"].as_u64().unwrap();
-            let cmax = c["c"]["tstart"].as_i64().unwrap() + c["c"]["tmax"].as_i64().unwrap();
-            let r = rng.below(100);
-            if (new_exp > cmax && r < 60) || r < 8 { dropl.push(id) } else if r < 94 { maintain.push(id) }
-        }
-        match rng.below(20) {
-            0 if !maintain.is_empty() => { let x = maintain[0]; maintain.push(x); }          // repeated id
-            1 if maintain.len() >= 2 => { maintain[1] = maintain[0]; }                        // repeated instead of the other
-            2 => maintain.push(any_id(rng) as u64),                                           // unknown / foreign
-            3 if !dropl.is_empty() => { let x = dropl[0]; maintain.push(x); }                 // both kept and dropped
-            4 if maintain.len() >= 2 && !dropl.is_empty() => { dropl[0] = maintain[0]; }
-            _ => {}
-        }
-        let mut decls = vec![json!({"n": n, "exp": new_exp, "maintain": maintain, "drop": dropl})];
-        match rng.below(12) {
-            // the same sector once more in the message, without claims and later
-            0 => decls.push(json!({"n": n, "exp": new_exp + *rng.pick(&[24, 48, 1]), "maintain": [], "drop": []})),
-            1 if !mine.is_empty() => decls.push(json!({"n": n, "exp": new_exp + 24, "maintain": [rng.pick(&mine)["id"]], "drop": []})),
-            2 if live.len() >= 2 => {
-                let s2 = *rng.pick(&live);
-                decls.push(json!({"n": s2["n"], "exp": s2["exp"].as_i64().unwrap() + 24, "maintain": [], "drop": []}));
+        _ => {
+            // time: to the next epoch at which something changes (first proof, a deadline turning mutable, the
+            // drop period, an expiration, a term end, an allocation's expiration), or a little
+            let mut marks: Vec<i64> = vec![];
+            for s in &live {
+                let exp = g(s, "exp");
+                marks.extend([exp - drop_period - 1, exp - drop_period, exp - 1, exp, exp + 1]);
+                if s["unproven"].as_bool().unwrap() { marks.push(open_of(g(s, "d"))); }
+                if g(s, "vw") == 0 && !mutable(g(s, "d")) { marks.push(open_of(g(s, "d")) + wdw); }
             }
-            3 => decls.insert(0, json!({"n": n, "exp": exp, "maintain": [], "drop": []})),
-            _ => {}
+            for c in claims {
+                let end = g(&c["c"], "tstart") + g(&c["c"], "tmax");
+                marks.extend([end - 1, end]);
+            }
+            for a in allocs {
+                marks.push(g(&a["a"], "exp"));
+                marks.push(g(&a["a"], "exp") + 1);
+            }
+            for pc in pres {
+                marks.push(g(pc, "at") + 2);
+            }
+            let ahead: Vec<i64> = marks.into_iter().filter(|m| *m > epoch).collect();
+            let n = if !ahead.is_empty() && rng.chance(70) {
+                let nearest = *ahead.iter().min().unwrap();
+                if rng.chance(75) { nearest - epoch } else { *rng.pick(&ahead) - epoch }
+            } else {
+                *rng.pick(&[1, 1, 2, 3, wdw, 2 * wdw, period])
+            };
+            json!({"a": "Tick", "n": n.clamp(1, 3200)})
         }
-        return json!({"a": "Extend", "m": "m1", "decls": decls});
     }
-    if k < 78 {
-        let (id, tm) = if !claims.is_empty() { let c = rng.pick(claims); (c["id"].as_i64().unwrap(), c["c"]["tmax"].as_i64().unwrap()) } else { (any_id(rng), 30) };
-        return json!({"a": "ExtendClaimTerms", "c": *rng.pick(&["c1", "c1", "c1", "c2"]),
-               "terms": [{"provider": "m1", "claim": id, "tmax": tm + *rng.pick(&[0, 1, 24, 48, -1, 4000])}], "res": []});
-    }
-    if k < 83 {
-        let ids: Vec<i64> = if rng.chance(40) { vec![] } else { vec![any_id(rng)] };
-        return json!({"a": "RemoveExpiredClaims", "c": "x", "p": *rng.pick(&["m1", "m1", "m1", "m2"]), "ids": ids, "removed": []});
-    }
-    if k < 87 {
-        let ids: Vec<i64> = if rng.chance(40) { vec![] } else { vec![any_id(rng)] };
-        return json!({"a": "RemoveExpiredAllocs", "c": "x", "cl": *rng.pick(&["c1", "c1", "c2"]), "ids": ids, "removed": []});
-    }
-    if k < 89 && !live.is_empty() {
-        return json!({"a": "Terminate", "m": "m1", "n": rng.pick(&live)["n"]});
-    }
-    // time: short steps, to a deadline boundary, to just before / at / after the next interesting epoch
-    let mut marks: Vec<i64> = vec![];
-    for s in &live {
-        let exp = s["exp"].as_i64().unwrap();
-        marks.extend([exp - p.end_of_life_claim_drop_period - 1, exp - p.end_of_life_claim_drop_period, exp - 1, exp, exp + 1]);
-    }
-    for c in claims {
-        let end = c["c"]["tstart"].as_i64().unwrap() + c["c"]["tmax"].as_i64().unwrap();
-        marks.extend([end - 1, end]);
-    }
-    for a in allocs {
-        marks.push(a["a"]["exp"].as_i64().unwrap());
-    }
-    for pc in pres {
-        marks.push(pc["at"].as_i64().unwrap() + 2);
-    }
-    let ahead: Vec<i64> = marks.into_iter().filter(|m| *m > epoch).collect();
-    let n = if !ahead.is_empty() && rng.chance(45) {
-        let nearest = *ahead.iter().min().unwrap();
-        if rng.chance(70) { nearest - epoch } else { *rng.pick(&ahead) - epoch }
-    } else {
-        *rng.pick(&[1, 1, 2, 3, wdw, 2 * wdw, period])
-    };
-    json!({"a": "Tick", "n": n.clamp(1, 3200)})
-}
-
-fn rng_ok(a: &Value, t: i64) -> bool {
-    t >= a["a"]["tmin"].as_i64().unwrap() && t <= a["a"]["tmax"].as_i64().unwrap()
 }
 
 pub fn main(args: &[String]) {
